@@ -69,3 +69,23 @@ fn bnd_frame_lanes_ib() {
     kani::cover!(r.is_ok() && has_fatal);
     kani::cover!(r.is_ok() && !has_fatal);
 }
+
+// @harness id=bnd_frame_lanes_nopanic props=C04 kind=bnd tier=quick bound=lanes<=4,fatal<=4 fns=AlpideReadoutFrame::check_frame_lanes_valid,validate_inner_lane_groupings stubs=alloc::fmt::format
+// No precondition on the fatal-lane list: it accumulates over frames (duplicates possible) and lane numbers
+// come from 5-bit ids (0..=31) in corrupted data.
+#[kani::proof]
+#[kani::stub(alloc::fmt::format, stub_format_nonempty)]
+#[kani::unwind(7)]
+fn bnd_frame_lanes_nopanic() {
+    let n: usize = kani::any();
+    kani::assume(n <= 4);
+    let ids: [u8; 16] = kani::any();
+    let which: u8 = kani::any();
+    let layer = if which == 0 { Layer::Inner } else if which == 1 { Layer::Middle } else { Layer::Outer };
+    let f = frame_with(layer, n, &ids);
+    let fatal: [u8; 4] = kani::any();
+    let k: usize = kani::any();
+    kani::assume(k <= 4);
+    kani::assume(fatal[0] < 32 && fatal[1] < 32 && fatal[2] < 32 && fatal[3] < 32);
+    let _ = f.check_frame_lanes_valid(Some(&fatal[..k]));
+}
